@@ -10,6 +10,7 @@ import (
 	"runtime/debug"
 	"strings"
 	"testing/iotest"
+	_ "verif/h/duoc"
 
 	"github.com/biogo/biogo/alphabet"
 	"github.com/biogo/biogo/io/seqio"
